@@ -410,5 +410,5 @@ PHASES = [
     Phase("dfs", run_dfs, enumerate=dfs_cases,
           exhaustive={"quick": True, "thorough": True}),
     Phase("schedules", run_case, strategy=strategy,
-          examples={"quick": 3000, "thorough": 120000}),
+          examples={"quick": 3000, "thorough": 300000}),
 ]
